@@ -63,7 +63,7 @@ func skipSexp(s string, i int) int {
 		}
 		return i
 	}
-	for i < len(s) && s[i] != ' ' {
+	for i < len(s) && s[i] != ' ' && s[i] != ')' {
 		i++
 	}
 	return i
